@@ -253,7 +253,12 @@ theorem InvL.append_idle {xs : List Xfer} (h : InvL xs) (x : Xfer) (hid : x.id =
 /-- the update a cycle applies -/
 def cycleMap (sel : List Xfer) (x : Xfer) : Xfer := if x ∈ sel then { x with st := .initializing } else x
 
-theorem cycle_xs (s : Sched) : s.cycle.xs = s.xs.map (cycleMap s.select) := rfl
+theorem start_xs (s : Sched) : s.start.xs = s.xs.map (cycleMap s.select) := rfl
+
+/-- the tracking half of a cycle touches neither the transfers nor the slot setting -/
+theorem track_xs (s : Sched) : s.track.xs = s.xs := rfl
+
+theorem cycle_eq (s : Sched) : s.cycle = s.track.start := rfl
 
 theorem cycleMap_proc {s : Sched} {x : Xfer} (_hx : x ∈ s.xs) :
     (cycleMap s.select x).procUpload = (x.procUpload || decide (x ∈ s.select)) := by
@@ -263,9 +268,9 @@ theorem cycleMap_proc {s : Sched} {x : Xfer} (_hx : x ∈ s.xs) :
     simp [h, Xfer.procUpload, Xfer.processing, hs.2.1]
   · simp [h]
 
-theorem inv_cycle {s : Sched} (h : Inv s) : Inv s.cycle := by
+theorem inv_start {s : Sched} (h : Inv s) : Inv s.start := by
   unfold Inv at h ⊢
-  rw [cycle_xs]
+  rw [start_xs]
   refine ⟨?_, ?_, ?_⟩
   · rw [pairwise_map]
     exact h.ids.imp (fun hab => by
@@ -354,10 +359,13 @@ theorem inv_step {s : Sched} (h : Inv s) (op : Op) : Inv (step s op) := by
   | cycle =>
     simp only [step]
     split
-    · exact inv_cycle h
+    · exact inv_start (s := s.track) h
     · exact h
   | setSlots n => exact h
-  | setUser u i => exact h
+  | friend u b => exact h
+  | report u st p => exact h
+  | reply u st => cases st <;> exact h
+  | privList l => exact h
   | started k | finish k | failX k | backToQueue k | requeue k | apiQueue k | abort k =>
     simp only [step, Op.xfer?]
     split
@@ -376,6 +384,150 @@ theorem inv_runFrom {s : Sched} (h : Inv s) (ops : List Op) : Inv (runFrom s ops
   | cons op ops ih => exact ih (inv_step h op)
 
 theorem inv_run (ops : List Op) : Inv (run ops) := inv_runFrom inv_init ops
+
+
+/-! ### tracking bookkeeping: the weak dictionary against its specification -/
+
+/-- `u` has some transfer (finalized or not) -/
+def Sched.hasXfer (s : Sched) (u : Nat) : Bool := s.xs.any (fun x => x.user == u)
+
+theorem hasXfer_split (s : Sched) (u : Nat) : s.hasXfer u = (s.unfinishedUser u || s.finishedUser u) := by
+  unfold Sched.hasXfer Sched.unfinishedUser Sched.finishedUser
+  induction s.xs with
+  | nil => rfl
+  | cons x r ih =>
+    simp only [any_cons, ih]
+    cases (x.user == u) <;> cases x.finalized <;> simp
+
+theorem any_user_map (g : Xfer → Xfer) (hu : ∀ x, (g x).user = x.user) (u : Nat) (xs : List Xfer) :
+    (xs.map g).any (fun x => x.user == u) = xs.any (fun x => x.user == u) := by
+  induction xs with
+  | nil => rfl
+  | cons x r ih => simp only [map_cons, any_cons, ih, hu]
+
+/-- the weak dictionary agrees with the specification, and holds nobody who has no transfer -/
+structure TrackInv (s : Sched) : Prop where
+  same : ∀ u, s.store u = s.ref u
+  idle : ∀ u, s.hasXfer u = false → s.store u = none
+
+theorem trackInv_init (n : Nat) : TrackInv { slots := n } := ⟨fun _ => rfl, fun _ _ => rfl⟩
+
+theorem trackInv_track {s : Sched} (h : TrackInv s) : TrackInv s.track := by
+  refine ⟨?_, ?_⟩
+  · intro u
+    show (if s.unfinishedUser u then (match s.store u with | some k => some k | none => some (s.fresh u))
+        else if s.finishedUser u then none else s.store u)
+      = (if s.unfinishedUser u then (match s.ref u with | some k => some k | none => some (s.fresh u)) else none)
+    rw [h.same u]
+    by_cases hu : s.unfinishedUser u = true
+    · simp only [hu, if_true]
+    · by_cases hf : s.finishedUser u = true
+      · simp only [hu, hf, if_true, if_false]; rfl
+      · have : s.hasXfer u = false := by
+          rw [hasXfer_split]; simp [hu, hf]
+        simp only [hu, hf, if_false]
+        rw [← h.same u]
+        exact h.idle u this
+  · intro u hx
+    have hx' : s.hasXfer u = false := hx
+    rw [hasXfer_split] at hx'
+    have hu : s.unfinishedUser u = false := by cases h1 : s.unfinishedUser u <;> simp_all
+    have hf : s.finishedUser u = false := by cases h1 : s.finishedUser u <;> simp_all
+    show (if s.unfinishedUser u then (match s.store u with | some k => some k | none => some (s.fresh u))
+        else if s.finishedUser u then none else s.store u) = none
+    simp only [hu, hf]
+    exact h.idle u hx
+
+/-- a step that keeps `store` / `ref` and only re-states or appends transfers -/
+theorem trackInv_of_xs {s s' : Sched} (h : TrackInv s) (hs : s'.store = s.store) (hr : s'.ref = s.ref)
+    (hx : ∀ u, s'.hasXfer u = false → s.hasXfer u = false) : TrackInv s' :=
+  ⟨fun u => by rw [hs, hr]; exact h.same u, fun u hu => by rw [hs]; exact h.idle u (hx u hu)⟩
+
+theorem trackInv_start {s : Sched} (h : TrackInv s) : TrackInv s.start := by
+  apply trackInv_of_xs h rfl rfl
+  intro u hu
+  unfold Sched.hasXfer at hu ⊢
+  rw [start_xs, any_user_map _ (fun x => by unfold cycleMap; split <;> rfl)] at hu
+  exact hu
+
+theorem trackInv_setSt {s : Sched} (h : TrackInv s) (k : Nat) (st : St) : TrackInv (s.setSt k st) := by
+  apply trackInv_of_xs h rfl rfl
+  intro u hu
+  unfold Sched.hasXfer at hu ⊢
+  rw [setSt_xs, any_user_map _ (fun x => by split <;> rfl)] at hu
+  exact hu
+
+theorem trackInv_append {s : Sched} (h : TrackInv s) (x : Xfer) (p : Bool) :
+    TrackInv { s with xs := s.xs ++ [x], cyclePending := p } := by
+  apply trackInv_of_xs h rfl rfl
+  intro u hu
+  unfold Sched.hasXfer at hu ⊢
+  simp only [any_append, Bool.or_eq_false_iff] at hu
+  exact hu.1
+
+theorem trackInv_step {s : Sched} (h : TrackInv s) (op : Op) : TrackInv (step s op) := by
+  cases op with
+  | addUpload u => exact trackInv_append h _ _
+  | addDownload u => exact trackInv_append h _ _
+  | cycle =>
+    simp only [step]
+    split
+    · exact trackInv_start (trackInv_track h)
+    · exact h
+  | setSlots n => exact ⟨h.same, h.idle⟩
+  | friend u b => exact ⟨h.same, h.idle⟩
+  | report u st p =>
+    refine ⟨fun v => ?_, fun v hv => ?_⟩
+    · show updKnown s.store u _ v = updKnown s.ref u _ v
+      unfold updKnown
+      rw [h.same v]
+    · show updKnown s.store u _ v = none
+      unfold updKnown
+      rw [h.idle v hv]
+      split <;> rfl
+  | reply u st =>
+    cases st with
+    | none => exact ⟨h.same, h.idle⟩
+    | some st =>
+      refine ⟨fun v => ?_, fun v hv => ?_⟩
+      · show updKnown s.store u _ v = updKnown s.ref u _ v
+        unfold updKnown
+        rw [h.same v]
+      · show updKnown s.store u _ v = none
+        unfold updKnown
+        rw [h.idle v hv]
+        split <;> rfl
+  | privList l =>
+    refine ⟨fun v => ?_, fun v hv => ?_⟩
+    · show (s.store v).map _ = (s.ref v).map _
+      rw [h.same v]
+    · show (s.store v).map _ = none
+      rw [h.idle v hv]
+      rfl
+  | started k | finish k | failX k | backToQueue k | requeue k | apiQueue k | abort k =>
+    simp only [step, Op.xfer?]
+    split
+    · split
+      · exact trackInv_setSt h _ _
+      · exact h
+    · exact h
+
+theorem trackInv_runFrom {s : Sched} (h : TrackInv s) (ops : List Op) : TrackInv (runFrom s ops) := by
+  induction ops generalizing s with
+  | nil => exact h
+  | cons op ops ih => exact ih (trackInv_step h op)
+
+/-- after the tracking half of a cycle every user with an unfinished transfer is held -/
+theorem track_holds_unfinished (s : Sched) {x : Xfer} (hx : x ∈ s.xs) (hf : x.finalized = false) :
+    (s.track.store x.user).isSome = true := by
+  have hu : s.unfinishedUser x.user = true := by
+    unfold Sched.unfinishedUser
+    rw [any_eq_true]
+    exact ⟨x, hx, by simp [hf]⟩
+  show (if s.unfinishedUser x.user then (match s.store x.user with | some k => some k | none => some (s.fresh x.user))
+      else if s.finishedUser x.user then none else s.store x.user).isSome = true
+  simp only [hu, if_true]
+  cases s.store x.user <;> rfl
 
 /-! ### counting -/
 
@@ -397,9 +549,9 @@ theorem countP_mem_eq_length {xs sel : List Xfer} (hx : xs.Nodup) (hs : sel.Nodu
   simp only [mem_filter, decide_eq_true_eq]
   exact ⟨fun h => h.2, fun h => ⟨hsub a h, h⟩⟩
 
-theorem procUploads_cycle {s : Sched} (h : Inv s) : s.cycle.procUploads = s.procUploads + s.select.length := by
+theorem procUploads_start {s : Sched} (h : Inv s) : s.start.procUploads = s.procUploads + s.select.length := by
   unfold Sched.procUploads
-  rw [cycle_xs, countP_map]
+  rw [start_xs, countP_map]
   have : countP (Xfer.procUpload ∘ cycleMap s.select) s.xs
       = countP (fun x => x.procUpload || decide (x ∈ s.select)) s.xs := by
     apply countP_congr
